@@ -200,6 +200,11 @@ func worker(c *vf.Ctx, bin string, w, workers, nsets, nexpr int) {
 			for i := range jobs {
 				jobs[i] = job{g.next(i), g.params()}
 			}
+			// plus nexpr/6 probes around the edges of single series
+			for k := 0; k < nexpr/6; k++ {
+				n, p := g.edgeProbe(k)
+				jobs = append(jobs, job{n, p})
+			}
 			ch := make(chan job)
 			var wg sync.WaitGroup
 			par := 4
